@@ -120,7 +120,9 @@ def spacing_rules(repo):
             gi = [s for s in arm.body if isinstance(s, ast.If) and any(x in stores for x in ast.walk(s))]
             okg = bool(gi) and unparse(gi[0].test) in ("symmetric and idx0 != idx1", "idx0 != idx1 and symmetric") and \
                 unparse(gi[0].body[0].target if isinstance(gi[0].body[0], ast.AugAssign) else gi[0].body[0]) == "%s[idx1, idx0, d]" % yname
-            if not ok:
+            if not st0:
+                out.append(unrecognised("R-SIB", fi, role, "no store directly in the left-first arm", arm))
+            elif not ok:
                 out.append(violation("R-SIB", fi, role, "left-first arm stores into `%s`" % t0, st0[0] if st0 else arm))
             elif not okg:
                 out.append(violation("R-SIB", fi, role, "mirror increment is not `if symmetric and idx0 != idx1: y[idx1, idx0, d] += 1`", gi[0] if gi else arm))
